@@ -249,7 +249,7 @@ impl Property for C02 {
 
     fn cases(&self, tier: Tier) -> u64 {
         match tier {
-            Tier::Quick => 40_000,
+            Tier::Quick => 120_000,
             Tier::Thorough => 1_500_000,
         }
     }
